@@ -229,8 +229,14 @@ End OneTransfer.
 
 (** * The table of transfers in progress *)
 
+Lemma opt_eqb_refl o : opt_eqb o o = true.
+Proof. destruct o; cbn; [apply N.eqb_refl|reflexivity]. Qed.
+
+Lemma chan_eqb_refl c : chan_eqb c c = true.
+Proof. unfold chan_eqb. rewrite !N.eqb_refl, opt_eqb_refl. reflexivity. Qed.
+
 Lemma key_eqb_refl k : key_eqb k k = true.
-Proof. unfold key_eqb. rewrite !N.eqb_refl. reflexivity. Qed.
+Proof. unfold key_eqb. rewrite chan_eqb_refl, N.eqb_refl. reflexivity. Qed.
 
 Lemma plookup_pset_same k v l : plookup k (pset k v l) = Some v.
 Proof.
@@ -263,7 +269,7 @@ Lemma recv_seg_done conv st b x i d o full :
   plookup (conv, x) (r_prog st') = None
   /\ r_queue st' = r_queue st ++ [(r_next st, full)]
   /\ r_next st' = r_next st + 1
-  /\ r_signals st' = r_signals st ++ [(r_next st, blen full)].
+  /\ r_signals st' = r_signals st ++ [(r_next st, blen full, c_peer conv)].
 Proof.
   intros Hd Hs. unfold recv_seg. destruct d as [|d0 dt]; [congruence|].
   rewrite Hs. unfold add_rx. destruct o; cbn [fst r_prog r_queue r_next r_signals];
@@ -288,7 +294,7 @@ Proof. induction l as [|x t IH]; intros a; [reflexivity|]. cbn [map fold_left]. 
 (** * Reassembly in any order *)
 
 Section Reassembly.
-  Variables (hs : list hint) (xid conv : N) (st : rx).
+  Variables (hs : list hint) (xid : N) (conv : chan) (st : rx).
   Variable segs : list (N * bytes * bool).
   Hypothesis Hshape : shape 0 segs.
   Hypothesis Hge2 : (2 <= length segs)%nat.
@@ -327,7 +333,7 @@ Section Reassembly.
     Permutation l segs ->
     let fin := fold_left G l st in
     r_queue fin = r_queue st ++ [(r_next st, concat (map seg_data segs))]
-    /\ r_signals fin = r_signals st ++ [(r_next st, blen (concat (map seg_data segs)))]
+    /\ r_signals fin = r_signals st ++ [(r_next st, blen (concat (map seg_data segs)), c_peer conv)]
     /\ r_next fin = r_next st + 1
     /\ plookup (conv, xid) (r_prog fin) = None
     /\ (forall l1 l2, l = l1 ++ l2 -> l2 <> [] ->
@@ -394,7 +400,7 @@ Theorem reassembly_h hs mtu xid conv st data p :
   Permutation p (send_transfer_h hs (Some mtu) xid data) ->
   let fin := fold_left (recv_frame conv) p st in
   r_queue fin = r_queue st ++ [(r_next st, data)]
-  /\ r_signals fin = r_signals st ++ [(r_next st, blen data)]
+  /\ r_signals fin = r_signals st ++ [(r_next st, blen data, c_peer conv)]
   /\ plookup (conv, xid) (r_prog fin) = None
   /\ (forall p1 p2, p = p1 ++ p2 -> p2 <> [] ->
         r_queue (fold_left (recv_frame conv) p1 st) = r_queue st
